@@ -35,7 +35,7 @@ def validate(trace_path, nevents):
     return vf.tlc_validate("StoreTrace", "StoreTrace.cfg", trace_path, nevents=nevents, timeout=3000, heap="12g")
 
 
-EXTRA_PREDS = {"delay-enforced", "delay-state"}
+EXTRA_PREDS = {"delay-enforced", "delay-state", "ttl-not-early"}
 
 
 def run_store(pid, tier, *, profiles, preds, res_filter, mc_depth, gen_depth, rnd, level_text, assumptions, pred_doc, rpc=None):
@@ -136,7 +136,8 @@ def run_store(pid, tier, *, profiles, preds, res_filter, mc_depth, gen_depth, rn
             "model_check": cov["mc"], "generation": cov["gen"], "random": cov["random"], "rpc_endpoint_level": cov.get("rpc", []),
             "predicates": sorted(preds), "predicate_doc": pred_doc,
             "rejected_steps_by_predicate": pred_hits,
-            # behaviour the specification models beyond the listed properties (lock delay: Store!EndpointApply / DelayExpires):
+            # behaviour the specification models beyond the listed properties (lock delay: Store!EndpointApply / DelayExpires;
+            # session TTL lower bound: Store!TTLMayExpire):
             # conformance is evaluated on the same traces and reported here, it never produces a VIOLATION line
             "beyond_listed_properties": {"predicates": sorted(EXTRA_PREDS), "rejected_steps": extra_hits,
                                          "steps_with_open_lock_delay_window": n_delay_steps},
